@@ -164,7 +164,19 @@ partial def parseVals : Nat → List String → Option (List Val × List String)
     pure (v :: vs, r2)
 end
 
+/-- `H` | `L<k>` | `S<k>` | `U<k>` joined by `-` -/
+def parseMix (s : String) : Option (List Mix) :=
+  (s.splitOn "-").mapM fun piece =>
+    if piece == "H" then some Mix.hole
+    else if piece.startsWith "L" then (piece.drop 1).toString.toNat?.map Mix.lit
+    else if piece.startsWith "S" then (piece.drop 1).toString.toNat?.map Mix.spread
+    else if piece.startsWith "U" then (piece.drop 1).toString.toNat?.map Mix.spreadHole
+    else none
+
 def parseForm (s : String) : Option Form :=
+  if s.startsWith "mix:" then (parseMix (s.drop 4).toString).map Form.secMix
+  else if s.startsWith "lmix:" then (parseMix (s.drop 5).toString).map Form.listMix
+  else
   match s with
   | "call" => some .call | "bang" => some .bang | "infix" => some .infixOp | "backtick" => some .backtick
   | "secall" => some .secAll | "chainR" => some .chainR | "chainL" => some .chainL
@@ -177,6 +189,7 @@ def renderRef : ApplySpec.Ref → String
   | .always => "ref:always"
   | .ifSection => "ref:ifSection"
   | .ifNotFunc => "ref:ifNotFunc"
+  | .listLit => "ref:listLit"
 
 def hexOfString (s : String) : String := hexOfBytes (s.toUTF8.toList.map (·.toNat))
 
